@@ -596,6 +596,77 @@ def h18b_chain(kinds: List[int], last: int) -> bool:
 NCHAIN = shard_int("NCHAIN", 3)
 
 
+def h18d_slow_callbacks(dsel: int, wsel: int, expected: bool, second_ok: bool) -> bool:
+    """
+    pre: 0 <= dsel <= 2
+    pre: 0 <= wsel <= 3
+    post: _
+    """
+    # The user's on_connect callback takes time (it awaits), and the session ends while it is still
+    # running, exactly when it returns, or afterwards.  The manager must still process the session end:
+    # on_disconnect once, after the on_connect call of that session began, and a new attempt no later
+    # than the cool-down after both the session end and the callback's return.
+    track.entered()
+    dur = (0, 1, 3)[concretize(dsel, 2)]
+    w = World18([0, 0, 0, 0, 0], [K_OK] if second_ok else [K_OK, K_SOCKET], 0, 0, 0, 0, True)
+    try:
+        cb = {"begin": [], "end": [], "disc": []}
+        orig_connect, orig_disconnect = w.on_connect, w.on_disconnect
+
+        async def on_connect():
+            cb["begin"].append(w.now())
+            await orig_connect()
+            if dur:
+                await asyncio.sleep(dur)
+            cb["end"].append(w.now())
+
+        async def on_disconnect(exp):
+            cb["disc"].append((w.now(), exp))
+            await orig_disconnect(exp)
+
+        w.rl._on_connect_cb = on_connect
+        w.rl._on_disconnect_cb = on_disconnect
+        if not second_ok:
+            w.oc = [0, 1, 0, 0, 0]  # the attempt after the session end fails once (socket error), then succeeds
+        w.do(E_START)
+        if not w.session_live or len(cb["begin"]) != 1:
+            return track.fail("first attempt did not establish a session / on_connect not called")
+        t0 = w.now()
+        t_end = t0 + (0, 0.5, dur, dur + 1)[concretize(wsel, 3)]
+        w.loop.advance_to(t_end)
+        w.loop.run_ready()
+        # the monitor's table of permitted instants assumes instantaneous callbacks: judged below instead
+        w.start_active += 1
+        w.session_live = False
+        w.ended += 1
+        w.ended_flags.append(expected)
+        w.cli._connection = None
+        w.loop.create_task(w.cli.on_stop(expected))
+        w.loop.advance_to(t_end + dur + 80)
+        w.loop.run_ready()
+        if track.reached():
+            return False
+        cool = RL_COOLDOWN if expected else 0
+        cb_done = cb["end"][0] if cb["end"] else None
+        if cb_done is None:
+            return track.fail("the on_connect callback of the first session never finished")
+        if len(cb["disc"]) < 1:
+            return track.fail("on_disconnect was not called for the ended session")
+        if cb["disc"][0][1] is not expected:
+            return track.fail("on_disconnect was told a different 'expected' flag than the session end had")
+        if len(w.attempts) < 2:
+            return track.fail(f"no new attempt after the session ended at t={t_end} (on_connect of that session returned at t={cb_done})")
+        lo = t_end + cool
+        hi = max(t_end, cb_done) + cool
+        if not (lo <= w.attempts[1] <= hi):
+            return track.fail(f"attempt after the session end started at t={w.attempts[1]}, outside [{lo}, {hi}]")
+        if w.connects < 1 or w.disconnects < 1:
+            return track.fail("callback counts inconsistent")
+        return True
+    finally:
+        w.close()
+
+
 def h18c_long(kind: int, pos: int, akind: int) -> bool:
     """
     pre: 0 <= kind and 0 <= pos and 0 <= akind
@@ -841,6 +912,8 @@ def shards(tier: str) -> list:
         for kind0 in range(1, 8):
             out.append({"fn": "h18b_chain", "env": {"NCHAIN": 3 if quick else 4, "D1": d[0], "D2": d[1], "KIND0": kind0}, "cond_timeout": 900 if quick else 2400,
                         "desc": f"consecutive failures, first of class {kind0}, the others symbolic over 7 error classes, then success, session end, new streak; phase delays {d}"})
+    out.append({"fn": "h18d_slow_callbacks", "env": {}, "cond_timeout": 600,
+                "desc": "on_connect takes 0/1/3 s; the session ends while it runs, when it returns, or later (expected/unexpected); on_disconnect and the next attempt still happen, within the cool-down after both"})
     out.append({"fn": "h18c_long", "env": {"NLONG": 12 if quick else 16}, "cond_timeout": 900,
                 "desc": "12/16 consecutive failures of one symbolic non-auth class with an auth/encryption error at a symbolic position"})
     return out
@@ -851,7 +924,7 @@ BOUNDS = {
     "thorough": "start() + 4 events over the full alphabet (settled and same-turn modes; 3 in the zero-delay / name / zeroconf variants; 5-6 in total from the waiting / connected states), start() + 5 events over {next timer, unexpected end, matching PTR, start(), stop()} with outcomes {success, SocketAPIError}; chains of 4 over all 7 error classes; long chain of 16",
 }
 OUTSIDE = [
-    "callbacks (on_connect, on_disconnect, on_connect_error) that take time or raise",
+    "callbacks that raise; on_disconnect / on_connect_error callbacks that take time (a slow on_connect is covered by h18d_slow_callbacks)",
     "start() after stop() while the client still has a live session or is completing a handshake (stop() does not disconnect the client; the restarted manager then keeps trying and gets 'Already connected' from the client until the session ends)",
     "mDNS records other than PTR/A (TXT, SRV, AAAA for the device: the statement does not say)",
     "float rounding of 1.8**n (covered by the margin obligation: no power within 1e-6 of a rounding boundary)",
